@@ -77,6 +77,11 @@ uint64_t mon_violations(void);
 void mon_note(const char *fmt, ...) __attribute__((format(printf, 1, 2)));
 /* writes summary files; returns process exit code (0 ok, 1 violations) */
 int mon_finish(void);
+/* Scenario watchdog (threaded harnesses): if mon_watchdog_disarm() is not called within `seconds` of wall-clock
+ * time, a violation with `key` is recorded (detail = what) and the process exits with status 3; the driver then
+ * restarts the slice after the offending case. Generous limits only: the firing of a watchdog is a hang verdict. */
+void mon_watchdog_arm(unsigned seconds, const char *key, const char *what);
+void mon_watchdog_disarm(void);
 /* hex helper: writes at most max bytes of src as hex into a static ring of buffers */
 const char *mon_hex(const void *src, size_t n, size_t max);
 
